@@ -563,3 +563,45 @@ func writeEvidence(path string, w *World, spec *Spec, opt Options, results []*Ha
 	os.MkdirAll(filepath.Dir(path), 0o755)
 	os.WriteFile(path, b, 0o644)
 }
+
+// ReplayMain replays one recorded counterexample natively and reports whether it reproduces.
+func ReplayMain(root, file string) int {
+	b, err := os.ReadFile(file)
+	if err != nil {
+		fmt.Fprintln(os.Stderr, err)
+		return 3
+	}
+	var rf replayFile
+	if err := json.Unmarshal(b, &rf); err != nil {
+		fmt.Fprintln(os.Stderr, err)
+		return 3
+	}
+	rel := "./" + strings.TrimPrefix(rf.Pkg, "github.com/thanos-io/thanos/")
+	out, note := NativeReplay(root, rel, []string{file}, 240*time.Second)
+	if note != "" {
+		fmt.Fprintln(os.Stderr, note)
+	}
+	o := out[file]
+	if o == nil {
+		fmt.Println("REPLAY no outcome")
+		return 2
+	}
+	fmt.Printf("REPLAY harness=%s assertion=%s failed=%v panic=%q stop=%q timeout=%v crash=%v\n", rf.Harness, rf.Assertion, keys(o.failed), o.panicked, o.stopped, o.timeout, o.crash)
+	rep := false
+	switch rf.Assertion {
+	case "panic":
+		rep = o.panicked != "" || o.crash
+	case "nontermination", "deadlock":
+		rep = o.timeout || o.crash
+	case "":
+		rep = false
+	default:
+		rep = o.failed[rf.Assertion]
+	}
+	if rep {
+		fmt.Printf("VIOLATION property=%s replay=%s\n", rf.Property, file)
+		return 1
+	}
+	fmt.Println("REPLAY did not reproduce a violation")
+	return 0
+}
